@@ -92,7 +92,13 @@ func srlawsEngine(args []string) error {
 			continue
 		}
 		// per-step observations
-		type obs struct{ resid, tolB, out, sto, rel, tolR float64; relChecked bool }
+		type obs struct {
+			resid, tolB, out, sto, rel, tolR float64
+			relChecked                       bool
+			zeroflow                         bool   // no inflow, no lateral inflow, no outflow in this step
+			residClass                       string // "tiny" (< 1 m^3) or "large"
+			atDead                           bool   // the reported storage (now or before) sits at or below the dead storage
+		}
 		var os_ []obs
 		prevS := 0.0
 		for t := 0; t < T; t++ {
@@ -103,8 +109,13 @@ func srlawsEngine(args []string) error {
 			resid := math.Abs((S - prevS) - (in[0][t]+in[1][t]-O-netEvap)*dt)
 			scale := math.Max(math.Abs(S), math.Max(math.Abs(prevS), (in[0][t]+in[1][t]+O)*dt))
 			tolB := 2e-3 + 1e-9*scale
-			o := obs{resid: resid, tolB: tolB, out: O, sto: S}
-			if bias == 0 && O > 0 {
+			o := obs{resid: resid, tolB: tolB, out: O, sto: S, zeroflow: in[0][t] == 0 && in[1][t] == 0 && O == 0, residClass: "tiny"}
+			if resid >= 1 {
+				o.residClass = "large"
+			}
+			o.atDead = dead > 0 && (S <= dead || prevS <= dead)
+			// the relation is singular at Q -> 0 (dS/dQ unbounded for m < 1): judged for outflows above 1 l/s
+			if bias == 0 && O > 1e-3 {
 				o.relChecked = true
 				o.rel = math.Abs(S - (k*math.Pow(O, m) + dead))
 				// the solver closes the mass balance to 1e-3 m^3, i.e. the index flow to e = 1e-3/dt; propagated through S(Q)
@@ -112,6 +123,9 @@ func srlawsEngine(args []string) error {
 				up := k * (math.Pow(O+e, m) - math.Pow(O, m))
 				down := k * (math.Pow(O, m) - math.Pow(math.Max(O-e, 0), m))
 				o.tolR = 2e-3 + 1e-9*math.Abs(S) + math.Max(up, down)
+			}
+			if o.relChecked && o.rel > o.tolR && os.Getenv("SRDEBUG") != "" && dead == 0 {
+				fmt.Fprintf(os.Stderr, "REL t=%d S=%g O=%g kOm=%g rel=%g tolR=%g prevS=%g I=%g L=%g rain=%g evap=%g netEvap=%g resid=%g params=%v\n", t, S, O, k*math.Pow(O, m), o.rel, o.tolR, prevS, in[0][t], in[1][t], in[2][t], in[3][t], netEvap, resid, []float64{bias, k, m, area, dead})
 			}
 			os_ = append(os_, o)
 			prevS = S
@@ -152,7 +166,7 @@ func srlawsEngine(args []string) error {
 			"raw": []float64{bias, k, m, area, dead, dt}})
 		for t, o := range os_ {
 			e := map[string]interface{}{"ev": "step", "t": t, "resid": rk(o.resid), "tolb": rk(o.tolB), "out": rk(o.out), "sto": rk(o.sto), "relchecked": o.relChecked,
-				"rel": 0, "tolr": 0}
+				"rel": 0, "tolr": 0, "zeroflow": o.zeroflow, "residclass": o.residClass, "atdead": o.atDead}
 			if o.relChecked {
 				e["rel"], e["tolr"] = rk(o.rel), rk(o.tolR)
 			}
